@@ -6,8 +6,11 @@ package props
 import (
 	"fmt"
 	"testing"
+	"time"
 
 	"github.com/zenon-network/go-zenon/chain/nom"
+	"github.com/zenon-network/go-zenon/consensus"
+	"github.com/zenon-network/go-zenon/vm/constants"
 
 	"verifharness/pbt"
 	"verifharness/sim"
@@ -64,6 +67,12 @@ func TestC06(t *testing.T) {
 // reorgScenario builds prefix / X / Y, lets B adopt X then Y, C only Y, and calls check(B, C)
 // after the switch and again after further common momentums.
 func reorgScenario(c *pbt.C, id string, check func(c *pbt.C, key string, b, cn *sim.Node)) {
+	reorgScenarioOpts(c, id, check, false)
+}
+
+// epochs: the branches part shortly before the end of an epoch and both run past it, and enough momentums follow
+// the switch for the reward updates of that epoch to be executed by the reorganised node.
+func reorgScenarioOpts(c *pbt.C, id string, check func(c *pbt.C, key string, b, cn *sim.Node), epochs bool) {
 	{
 		h := sim.NewHist(c, genSpec(c), genWorldOpts(c))
 		h.Intents = sim.DefaultIntents()
@@ -73,6 +82,15 @@ func reorgScenario(c *pbt.C, id string, check func(c *pbt.C, key string, b, cn *
 		if h.Dead {
 			c.Excluded("C09-preflight-abort")
 			return
+		}
+		if epochs {
+			// move to 1..12 slots before the end of the running epoch
+			ep := int64(consensus.EpochDuration / time.Second)
+			into := (h.A.Frontier().Timestamp.Unix() - h.W.Spec.Timestamp) % ep
+			left := int((ep-into)/10) - c.Int("epoch.before", 1, 12)
+			if left > 0 {
+				h.Produce(left)
+			}
 		}
 		forkAt := h.A.Height()
 		a2 := h.W.AddNode("A2", true)
@@ -91,6 +109,9 @@ func reorgScenario(c *pbt.C, id string, check func(c *pbt.C, key string, b, cn *
 		h2 := sim.NewHistOn(c, h.W, a2, h)
 		// branch X on A
 		depthX := c.Int("x.depth", 1, pbt.Scale(8, 29))
+		if epochs {
+			depthX = c.Int("x.depthEpoch", 13, 22) // past the end of the epoch whatever the slots skipped
+		}
 		grow(c, h, "x", depthX, pbt.Scale(12, 25))
 		// branch Y on A2: strictly longer
 		lenX := int(h.A.Height() - forkAt)
@@ -200,7 +221,11 @@ func reorgScenario(c *pbt.C, id string, check func(c *pbt.C, key string, b, cn *
 			topY = a2.Height()
 		}
 		// both continue with the same further operations
-		grow(c, h2, "after", c.Int("after.m", 1, 4), 8)
+		afterMin := c.Int("after.m", 1, 4)
+		if epochs {
+			afterMin += 8 + int(constants.RewardTimeLimit/10)
+		}
+		grow(c, h2, "after", afterMin, 8)
 		if h2.Dead {
 			c.Excluded("C09-preflight-abort")
 			return
